@@ -1,56 +1,11 @@
 ------------------------------ MODULE EvalEdit ------------------------------
 (* Record-mode evaluation of observed edit calls against FcEdit (C03 C09 C18). *)
-EXTENDS FcEdit, EvalBase
+EXTENDS EditChecks
 
 DS == TLCEval(IndexDS(JsonDeserialize(IOEnv.SCHEMA)))
 
-\* {"chk":"edit","schema":..,"impl":..,"src":..,"ordered":BOOL,"pre":Tree,
-\*  "op":{"k":..,"at":Path,"s":Tree},"res":{"ok":BOOL,"err":..},"post":Tree}
-CheckEdit(r) ==
-    IF ~(WireOK(r.pre) /\ WireOK(r.op.s)) THEN
-         (IF r.step = 0 THEN "harness-wire-duplicates" ELSE "ok")  \* corrupted by an earlier, reported step
-    ELSE IF ~WireOK(r.post) THEN
-         (IF r.res.err = "panic" THEN "panic" ELSE "duplicate-entries-in-store")
-    ELSE LET T == TreeOf(r.pre)
-             post == TreeOf(r.post)
-             S == TreeOf(r.op.s)
-             op == [k |-> r.op.k, at |-> r.op.at, s |-> S]
-             \* order is observable for a list only if the target holds it in a slice and the
-             \* source presents entries in a defined order
-             uno == IF r.srcordered THEN UnorderedOf(r.post)
-                    ELSE UnorderedOf(r.post) \cup DOMAIN S.ord
-         IN IF ~WellFormed(DS, T) THEN "ok"  \* state already corrupted by an earlier, reported step
-            ELSE IF r.res.err = "panic" THEN "panic"
-            ELSE LET c == CASE op.k \in {"upsert", "insert", "update"} ->
-                               EditCheck(DS, uno, T, op, r.res, post)
-                            [] op.k = "delete" -> DeleteCheck(UnorderedOf(r.post), T, op.at, r.res, post)
-                            [] op.k = "replace" -> ReplaceCheck(DS, uno, T, op.at, S, r.res, post)
-                            [] OTHER -> "harness-unknown-op"
-                 IN IF c # "ok" THEN c
-                    ELSE IF ~KeysUnique(post) THEN "duplicate-keys"
-                    ELSE IF ~OneCase(DS, post) THEN "two-cases-hold-data"
-                    ELSE IF ~WellFormed(DS, post) THEN "post-not-wellformed"
-                    ELSE "ok"
-
-\* after an operation: every container, list and entry the store holds is found under its
-\* path (an entry under the key its key leaves hold), the deleted node is not
-\* {"chk":"findall","tree":Tree,"present":[{"p":Path,"found":BOOL,"err":..,"key":[..]}],"gone":[...]}
-CheckFindAll(r) ==
-    IF ~WireOK(r.tree) THEN "ok"   \* reported by the edit record of the same step
-    ELSE LET T == TreeOf(r.tree) IN
-         IF \E i \in DOMAIN r.present : r.present[i].err = "panic" THEN "panic"
-         \* (whether a list without entries still "exists" is store specific: DESIGN 4.5)
-         ELSE IF \E i \in DOMAIN r.present : r.present[i].p \in T.cont /\ ~r.present[i].found
-                    /\ ~(r.present[i].p \in DOMAIN T.ord /\ T.ord[r.present[i].p] = << >>)
-              THEN "existing-node-not-found"
-         ELSE IF \E i \in DOMAIN r.present : IsEntry(r.present[i].p) /\ r.present[i].key # KeysOfEntry(r.present[i].p)
-              THEN "entry-found-under-wrong-key"
-         ELSE IF \E i \in DOMAIN r.gone : r.gone[i].found /\ r.gone[i].p \notin T.cont
-              THEN "deleted-node-still-found"
-         ELSE "ok"
-
-Check(r) == CASE r.chk = "edit" -> CheckEdit(r)
-              [] r.chk = "findall" -> CheckFindAll(r)
+Check(r) == CASE r.chk = "edit" -> CheckEdit(DS, r)
+              [] r.chk = "findall" -> CheckFindAll(DS, r)
               [] r.chk = "skip" -> "ok"
               [] OTHER -> "harness-unknown-chk"
 
